@@ -68,20 +68,30 @@ def scan_support_header(h):
     return alarms, len(enums), len([d for d in counts if d.startswith("on")])
 
 
+ABSORB = ["rec\x001\x002\x007", "\x0012", "\x011", "\x1f7z", "\n0", "\t7", "\x7f1", "\x1bf", "\x0cA", "é9", "\u200bB", "\x00",
+          "a\x00", "\x000", "\x08" + "8", "\x01" + "9", "\\0", "\\x41", "\x0e" + "e", "?" + "?=", "\x7f" + "F", "\x00\x00" + "7"]
+
+
 class LiteralDoc:
     """Bindings `sval: edit.text + <literal>` for hostile literals: executed with edit.text == '' the value IS the literal."""
 
-    def __init__(self, rng, n=16):
+    def __init__(self, rng, n=16, fixed=None):
         self.rng = rng
+        if fixed:
+            n = len(fixed)
         self.objects = [ge.ObjSpec(i, c) for i, c in exprdoc.SOURCES]
         self.targets = ["t%d" % k for k in range(n)]
         self.bindings = []
         self.features = set()
         for k, tg in enumerate(self.targets):
             s, pool = strings.pick_string(rng, True, allow_controls=(k % 4 == 3), allow_cr=True)
-            s = s.replace("\x00", "\x01")   # NUL cannot be told apart from the end of a u"" literal by sizeof arithmetic... it can; keep simple
+            if fixed or k % 5 == 4:
+                # an escape directly followed by a character a C++ compiler could absorb into it
+                s, pool = (fixed[k] if fixed else rng.choice(ABSORB)), "escape-then-digit"
             lit = ge.N("lit", ge.STR, v=(s, strings.js_literal(rng, s)), const=True)
             form = k % 3
+            if "\x00" in s:
+                form = 0   # qsTr() text travels as a NUL-terminated C string in Qt: not used for strings holding U+0000
             if form == 0:
                 prog = ge.N("bin", ge.STR, (ge.N("prop", ge.STR, (ge.N("obj", ge.PTR, v="edit", const=True),), v="text"), lit), v="+")
             elif form == 1:
@@ -118,6 +128,8 @@ QWidget {
         font.family: le.text
         font.pointSize: cb.checked ? 9 : 10
         font.underline: !cb.checked
+        fontFamily: le.text + "f"
+        fontBold: !cb.checked
         ival: Math.max(1, cb.checked as int)
         onFired: console.warn(Math.min(g.ival, 2))
     }
@@ -183,7 +195,7 @@ def run(tier, seed, replay=None):
         d = cbdoc.CbDoc(rng, n_handlers=10, max_depth=2)
         d.kind = "callbacks"
         docs.append(d)
-    litdocs = [LiteralDoc(rng) for _ in range(4 * scale)]
+    litdocs = [LiteralDoc(rng, fixed=ABSORB)] + [LiteralDoc(rng) for _ in range(4 * scale)]
     for d in litdocs:
         d.kind = "literals"
     docs += litdocs
